@@ -40,7 +40,7 @@ REQUIRED = {'src.cases': 300, 'src.pulled_cases': 100, 'reach.limit_iterable': 1
             'shape.cases': 100, 'mem.cases': 100, 'mem.args_measured': 1000, 'outcome.MemoryQuotaExceededException': 20,
             'reach.limit_memory_usage': 1000, 'pr.*': 120, 'producer.proxied_calls': 20}
 
-CASE_ALARM = 20
+CASE_ALARM = 90
 MEM_CAP = [30000]
 
 
@@ -558,7 +558,7 @@ def mem_exprs(q, rng):
 def _memory(spec, mon, rec):
     rng = rng_for(spec['seed'], 'c08', spec['name'])
     q = spec['q']
-    MEM_CAP[0] = 30000 if spec['tier'] == 'thorough' else 6000
+    MEM_CAP[0] = 12000 if spec['tier'] == 'thorough' else 6000
     exprs = mem_exprs(q, rng)
     rng.shuffle(exprs)
     exprs = exprs[spec['part']::spec['parts']][:spec['count']]
